@@ -629,7 +629,8 @@ fn main() {
         for i in 0..mine {
             let global = i * n as u64 + w as u64;
             let class = CLASSES[(global % CLASSES.len() as u64) as usize];
-            let len = length(rng, max_len);
+            // sanitizer tiers: lengths 1..=max_len in turn (so the floors are met deterministically)
+            let len = if small { (global as usize % max_len) + 1 } else { length(rng, max_len) };
             let base = sequence(rng, class, len);
             let perms: Vec<Vec<Decimal>> = (0..3)
                 .map(|_| {
